@@ -35,6 +35,41 @@ var c02GuardExceptions = map[string]string{
 	"idx:profile.isProfileType:*&param types[…][φrangeindex+1]":                             "the loop over st runs only after len(st) == len(t) was checked",
 }
 
+// c02ExceptionHooks re-verify the producer side of reviewed invariants (see c09ExceptionHooks).
+var c02ExceptionHooks = map[string]func(c *Check) string{
+	"profile.parseThread": func(c *Check) string {
+		// every sample parseThread appends is built with a non-empty Value
+		f := c.P.Func("profile", "parseThread")
+		if f == nil {
+			return "parseThread not found"
+		}
+		g := newGuardEngine(c.P)
+		n := 0
+		for _, b := range f.Blocks {
+			for _, ins := range b.Instrs {
+				st, ok := ins.(*ssa.Store)
+				if !ok {
+					continue
+				}
+				fa, ok := st.Addr.(*ssa.FieldAddr)
+				if !ok {
+					continue
+				}
+				if T, F := fieldOf(fa.X.Type(), fa.Field); T == "profile.Sample" && F == "Value" {
+					n++
+					if g.minLenByConstruction(st.Val, 0) < 1 {
+						return "parseThread builds a sample whose Value is not a non-empty literal"
+					}
+				}
+			}
+		}
+		if n == 0 {
+			return "parseThread no longer builds its samples with an explicit Value"
+		}
+		return ""
+	},
+}
+
 func runC02(c *Check) {
 	c.Explanation = "Decides structural necessary conditions of C02 on the parse path (the 130 functions of package profile reachable from ParseData, including the decoder closures and the legacy parsers): every successful return of ParseData passes through CheckValid on the returned profile (R1); the path contains no explicit panic and no non-comma-ok type assertion other than the decoder slots' own message type (R2); every index and slice expression — constant, len-k or variable — is in range by a dominating comparison, by the producer of the value, by caller-supplied slice lengths, or by a reviewed invariant (R3); wire-buffer payloads are read only after the matching wire-type check, and unknown or nil decoder slots are skipped (R4); string-table indices are range-checked in getString and dense id tables are indexed only under id < len (part of R3); the one allocation sized by decoded input is bounded by the remaining input (R6); regexp capture groups are indexed within the arity of their pattern (R7); integer divisions by input-derived values are guarded (R8). Not decided: termination and promptness, and that a parsed profile can be reported without a crash (C09)."
 	p := c.P
@@ -208,7 +243,7 @@ func runC02(c *Check) {
 		}
 	}
 	c.Extra["write_path_functions"] = len(onWrite)
-	c.guardRule("C02-R3", func(f *ssa.Function) bool { return onPath[f] || onWrite[f] }, false, c02GuardExceptions)
+	c.guardRule("C02-R3", func(f *ssa.Function) bool { return onPath[f] || onWrite[f] }, false, c02GuardExceptions, c02ExceptionHooks)
 	c.Floor("C02-R3", 150)
 
 	// the parsed unit lists satisfy the length invariant the write path relies on
